@@ -227,6 +227,15 @@ fn main() {
             ct_marker_end();
             vec![(r == cryptoxide::chacha20poly1305::DecryptionResult::Match) as u8]
         }
+        // the wide reduction applied to the secret nonce / hash during signing, on a chosen 64-byte secret
+        "sc_reduce" => {
+            let w = arr::<64>(&secret);
+            ct_marker_begin();
+            let r = cryptoxide::curve25519::Scalar::reduce_from_wide_bytes(black_box(&w));
+            let o = r.to_bytes();
+            ct_marker_end();
+            o.to_vec()
+        }
         "noop" => Vec::new(),
         // deliberately secret-dependent control flow: used only to show that the tracer detects it
         "selftest_leaky" => {
